@@ -658,6 +658,11 @@ box_set_str = Z.func('box_set_str', Z.SetSort(Z.Str), Z.Obj)
 unbox_set_str = Z.func('unbox_set_str', Z.Obj, Z.SetSort(Z.Str))
 
 
+box_map = Z.func('box_map', Z.SetSort(Z.Str), z3.ArraySort(Z.Str, Z.Obj), Z.Obj)
+unbox_map_dom = Z.func('unbox_map_dom', Z.Obj, Z.SetSort(Z.Str))
+unbox_map_arr = Z.func('unbox_map_arr', Z.Obj, z3.ArraySort(Z.Str, Z.Obj))
+
+
 def box(v, ctx=None):
     """Embed a value into sort Obj.  Injectivity facts are assumed at the
     point of boxing (quantifier-free instances of unbox(box(x)) == x)."""
@@ -713,6 +718,15 @@ def box(v, ctx=None):
         return b
     if isinstance(v, VCallable) and ctx is not None:
         return ctx.box_callable(v)
+    if isinstance(v, VMap) and v.kt.zsort == Z.Str and v.vt.zsort == Z.Obj:
+        b = box_map(v.dom, v.arr)
+        fact(z3.And(unbox_map_dom(b) == v.dom, unbox_map_arr(b) == v.arr, tag(b) == 9, b != Z.NONE))
+        return b
+    if ctx is not None and isinstance(v, (VMap, VSet, VSeq, VNames, VZip)):
+        # a value whose structure is not needed once it is stored in an Obj slot
+        b = Z.fresh('boxed', Z.Obj)
+        fact(b != Z.NONE)
+        return b
     raise TypeError('cannot box %r' % (v,))
 
 
